@@ -80,6 +80,116 @@ fn canon_pair(v: &serde_json::Value) -> String {
 
 struct Watch { panics: u64, big: u64, calls: u64 }
 
+// ---- structure-aware mutations: walk the JSON / CBOR tree of an honest encoding ----------------
+type J = serde_json::Value;
+fn j_paths(v: &J, cur: &mut Vec<usize>, out: &mut Vec<Vec<usize>>) {
+    out.push(cur.clone());
+    match v {
+        J::Array(a) => {
+            // long homogeneous arrays (byte strings as number lists): only the ends
+            let idxs: Vec<usize> = if a.len() > 8 { vec![0, 1, a.len() - 1] } else { (0..a.len()).collect() };
+            for i in idxs { cur.push(i); j_paths(&a[i], cur, out); cur.pop(); }
+        }
+        J::Object(o) => { for i in 0..o.len() { cur.push(i); j_paths(o.values().nth(i).unwrap(), cur, out); cur.pop(); } }
+        _ => {}
+    }
+}
+fn j_at<'a>(v: &'a mut J, path: &[usize]) -> &'a mut J {
+    let mut c = v;
+    for &i in path { c = match c { J::Array(a) => &mut a[i], J::Object(o) => o.values_mut().nth(i).unwrap(), _ => unreachable!() }; }
+    c
+}
+/// every single-node mutation of `honest`
+fn j_mutations(honest: &J) -> Vec<J> {
+    let mut paths = vec![]; j_paths(honest, &mut vec![], &mut paths);
+    let mut out = vec![];
+    for p in &paths {
+        let node = { let mut h = honest.clone(); j_at(&mut h, p).clone() };
+        let mut variants: Vec<J> = vec![J::Null, serde_json::json!([]), serde_json::json!({}), serde_json::json!("x"), serde_json::json!(0), serde_json::json!(true)];
+        match &node {
+            J::Array(a) => {
+                let last = a.last().cloned().unwrap_or(serde_json::json!(0));
+                for extra in [last.clone(), serde_json::json!(0), serde_json::json!(255), serde_json::json!(256), serde_json::json!(-1), serde_json::json!("x"), J::Null, serde_json::json!([]), serde_json::json!(1.5)] { let mut b = a.clone(); b.push(extra); variants.push(J::Array(b)); }
+                { let mut b = a.clone(); b.insert(0, last.clone()); variants.push(J::Array(b)); }
+                { let mut b = a.clone(); b.extend(a.iter().cloned()); variants.push(J::Array(b)); }
+                if !a.is_empty() { let mut b = a.clone(); b.pop(); variants.push(J::Array(b)); let mut b = a.clone(); b.remove(0); variants.push(J::Array(b)); }
+                if a.len() >= 2 { let mut b = a.clone(); b.swap(0, 1); variants.push(J::Array(b)); let mut b = a.clone(); b.reverse(); variants.push(J::Array(b.clone())); b.truncate(1); variants.push(J::Array(b)); }
+                { let mut b = a.clone(); for _ in 0..300 { b.push(last.clone()); } variants.push(J::Array(b)); }
+            }
+            J::Number(_) => { for n in [serde_json::json!(1), serde_json::json!(255), serde_json::json!(256), serde_json::json!(-1), serde_json::json!(u64::MAX), serde_json::json!(u64::MAX - 1), serde_json::json!(1u64 << 53), serde_json::json!(1u64 << 32), serde_json::json!(i64::MIN), serde_json::json!(1.5), serde_json::json!(1e300), serde_json::json!(0.0), serde_json::json!(1.0), serde_json::json!("1")] { variants.push(n); } }
+            J::String(t) => { variants.push(serde_json::json!("")); variants.push(serde_json::json!(format!("{}0", t))); variants.push(serde_json::json!(t.chars().skip(1).collect::<String>())); variants.push(serde_json::json!("zz")); variants.push(serde_json::json!(t.repeat(3))); variants.push(serde_json::json!(t.to_uppercase())); }
+            J::Object(o) => {
+                for k in o.keys() { let mut b = o.clone(); b.remove(k); variants.push(J::Object(b)); }
+                { let mut b = o.clone(); b.insert("unknown_field".into(), serde_json::json!(1)); variants.push(J::Object(b)); }
+                for (k, val) in o.iter() { let mut b = o.clone(); b.remove(k); b.insert(format!("{}_", k), val.clone()); variants.push(J::Object(b)); }
+            }
+            _ => {}
+        }
+        for v in variants { if v != node { let mut h = honest.clone(); *j_at(&mut h, p) = v; out.push(h); } }
+    }
+    out
+}
+
+type C = ciborium::Value;
+fn c_children(v: &C) -> usize { match v { C::Array(a) => a.len(), C::Map(m) => m.len() * 2, C::Tag(_, _) => 1, _ => 0 } }
+fn c_child<'a>(v: &'a mut C, i: usize) -> &'a mut C {
+    match v { C::Array(a) => &mut a[i], C::Map(m) => { let e = &mut m[i / 2]; if i % 2 == 0 { &mut e.0 } else { &mut e.1 } }, C::Tag(_, b) => &mut **b, _ => unreachable!() }
+}
+fn c_paths(v: &mut C, cur: &mut Vec<usize>, out: &mut Vec<Vec<usize>>) {
+    out.push(cur.clone());
+    let n = c_children(v);
+    let idxs: Vec<usize> = if n > 8 { vec![0, 1, n - 1] } else { (0..n).collect() };
+    for i in idxs { cur.push(i); c_paths(c_child(v, i), cur, out); cur.pop(); }
+}
+fn c_at<'a>(v: &'a mut C, path: &[usize]) -> &'a mut C { let mut c = v; for &i in path { c = c_child(c, i); } c }
+fn c_enc(v: &C) -> Vec<u8> { let mut o = vec![]; ciborium::ser::into_writer(v, &mut o).unwrap(); o }
+/// every single-node mutation of a CBOR document; byte strings that are themselves versioned CBOR
+/// (the envelopes of the wire types) are mutated inside as well, `depth` levels deep
+fn c_mutations(honest: &C, depth: usize) -> Vec<C> {
+    let mut h0 = honest.clone();
+    let mut paths = vec![]; c_paths(&mut h0, &mut vec![], &mut paths);
+    let mut out = vec![];
+    for p in &paths {
+        let node = { let mut h = honest.clone(); c_at(&mut h, p).clone() };
+        let mut variants: Vec<C> = vec![C::Null, C::Array(vec![]), C::Map(vec![]), C::Text("x".into()), C::Integer(0.into()), C::Bool(true), C::Bytes(vec![]), C::Float(1.5)];
+        match &node {
+            C::Array(a) => {
+                let last = a.last().cloned().unwrap_or(C::Integer(0.into()));
+                for extra in [last.clone(), C::Integer(0.into()), C::Integer(255.into()), C::Integer(256.into()), C::Integer((-1).into()), C::Text("x".into()), C::Null, C::Bytes(vec![1, 2])] { let mut b = a.clone(); b.push(extra); variants.push(C::Array(b)); }
+                { let mut b = a.clone(); b.extend(a.iter().cloned()); variants.push(C::Array(b)); }
+                if !a.is_empty() { let mut b = a.clone(); b.pop(); variants.push(C::Array(b)); let mut b = a.clone(); b.remove(0); variants.push(C::Array(b)); }
+                if a.len() >= 2 { let mut b = a.clone(); b.swap(0, 1); variants.push(C::Array(b.clone())); b.truncate(1); variants.push(C::Array(b)); }
+                { let mut b = a.clone(); for _ in 0..300 { b.push(last.clone()); } variants.push(C::Array(b)); }
+                // the same elements as a byte string / as a map
+                if let Some(bs) = a.iter().map(|x| x.as_integer().and_then(|i| u8::try_from(i).ok())).collect::<Option<Vec<u8>>>() { variants.push(C::Bytes(bs)); }
+            }
+            C::Bytes(b) => {
+                for extra in [vec![0u8], vec![255u8], b.clone()] { let mut c = b.clone(); c.extend(extra); variants.push(C::Bytes(c)); }
+                if !b.is_empty() { let mut c = b.clone(); c.pop(); variants.push(C::Bytes(c)); let mut c = b.clone(); c.remove(0); variants.push(C::Bytes(c)); let mut c = b.clone(); c[0] ^= 1; variants.push(C::Bytes(c)); let mut c = b.clone(); let n = c.len(); c[n - 1] ^= 0x80; variants.push(C::Bytes(c)); }
+                variants.push(C::Array(b.iter().map(|x| C::Integer((*x).into())).collect()));
+                variants.push(C::Text(hex(b)));
+                if depth > 0 && b.first() == Some(&1) {
+                    if let Ok(inner) = ciborium::de::from_reader::<C, _>(&b[1..]) {
+                        for m in c_mutations(&inner, depth - 1) { let mut c = vec![1u8]; c.extend(c_enc(&m)); variants.push(C::Bytes(c)); }
+                    }
+                }
+            }
+            C::Integer(_) => { for n in [1i128, 255, 256, -1, u64::MAX as i128, u64::MAX as i128 - 1, 1 << 53, 1 << 32, i64::MIN as i128, u32::MAX as i128 + 1] { variants.push(C::Integer(ciborium::value::Integer::try_from(n).unwrap())); } variants.push(C::Float(1.0)); variants.push(C::Text("1".into())); }
+            C::Text(t) => { variants.push(C::Text(String::new())); variants.push(C::Text(format!("{}0", t))); variants.push(C::Text("zz".into())); variants.push(C::Bytes(t.clone().into_bytes())); }
+            C::Map(m) => {
+                for i in 0..m.len() { let mut b = m.clone(); b.remove(i); variants.push(C::Map(b)); }
+                { let mut b = m.clone(); b.push((C::Text("unknown_field".into()), C::Integer(1.into()))); variants.push(C::Map(b)); }
+                if !m.is_empty() { let mut b = m.clone(); b.push(m[0].clone()); variants.push(C::Map(b)); }
+                if m.len() >= 2 { let mut b = m.clone(); b.swap(0, 1); variants.push(C::Map(b)); }
+                variants.push(C::Array(m.iter().map(|e| e.1.clone()).collect()));
+            }
+            _ => {}
+        }
+        for v in variants { if v != node { let mut h = honest.clone(); *c_at(&mut h, p) = v; out.push(h); } }
+    }
+    out
+}
+
 /// run one decoder call under the panic hook and the allocation counter
 fn guarded<T>(w: &mut Watch, sink: &mut Sink, what: &str, input_len: usize, input_hex: &dyn Fn() -> String, f: impl FnOnce() -> T + std::panic::UnwindSafe) -> Option<T> {
     w.calls += 1;
@@ -306,6 +416,58 @@ fn main() {
             let ff = *f;
             guarded(&mut w, &mut sink, name, s.len(), &hx, move || ff(&s2));
         }
+    }
+    // ---- (2b) structure-aware mutations of honest encodings: every node of the JSON / CBOR tree ------
+    {
+        type JDec = (&'static str, J, fn(J) -> bool);
+        let mk_tree = mithril_common::crypto_helper::MKTree::<mithril_common::crypto_helper::MKTreeStoreInMemory>::new(&["a", "b", "c", "d", "e"]).unwrap();
+        let mk_proof = mk_tree.compute_proof(&["b".into(), "d".into()]).unwrap();
+        let jdecs: Vec<JDec> = vec![
+            ("SingleSignature (JSON)", serde_json::to_value(&sigs[0]).unwrap(), |v| serde_json::from_value::<SingleSignature>(v).is_ok()),
+            ("SingleSignatureWithRegisteredParty (JSON)", aggv["signatures"][0].clone(), |v| serde_json::from_value::<SingleSignatureWithRegisteredParty>(v).is_ok()),
+            ("AggregateSignature (JSON)", aggv.clone(), |v| serde_json::from_value::<AggregateSignature<D>>(v).is_ok()),
+            ("AggregateVerificationKeyForConcatenation (JSON)", serde_json::to_value(&avk).unwrap(), |v| serde_json::from_value::<AggregateVerificationKeyForConcatenation<D>>(v).is_ok()),
+            ("VerificationKeyForConcatenation (JSON)", serde_json::to_value(&f.by_slot[0].0).unwrap(), |v| serde_json::from_value::<VerificationKeyForConcatenation>(v).is_ok()),
+            ("VerificationKeyProofOfPossessionForConcatenation (JSON)", serde_json::to_value(&f.initializers[0].get_verification_key_proof_of_possession_for_concatenation()).unwrap(), |v| serde_json::from_value::<VerificationKeyProofOfPossessionForConcatenation>(v).is_ok()),
+            ("Parameters (JSON)", serde_json::to_value(&params).unwrap(), |v| serde_json::from_value::<Parameters>(v).is_ok()),
+            ("Initializer (JSON)", serde_json::to_value(&f.initializers[0]).unwrap(), |v| serde_json::from_value::<Initializer>(v).is_ok()),
+            ("MKProof (JSON)", serde_json::to_value(&mk_proof).unwrap(), |v| serde_json::from_value::<MKProof>(v).map(|p| { let _ = p.verify(); true }).unwrap_or(false)),
+            ("CertificateMessage (JSON tree)", serde_json::to_value(&CertificateMessage::try_from(mithril_common::test::double::fake_data::certificate("h")).unwrap()).unwrap(), |v| serde_json::from_value::<CertificateMessage>(v).map(|m| { let _ = mithril_common::entities::Certificate::try_from(m); true }).unwrap_or(false)),
+            // the JSON-hex key strings of mithril-common: the mutated document travels hex-encoded
+            ("ProtocolMultiSignature (JSON hex tree)", aggv.clone(), |v| ProtocolMultiSignature::try_from(hex::encode(serde_json::to_vec(&v).unwrap()).as_str()).is_ok()),
+            ("ProtocolSingleSignature (JSON hex tree)", serde_json::to_value(&sigs[0]).unwrap(), |v| ProtocolSingleSignature::try_from(hex::encode(serde_json::to_vec(&v).unwrap()).as_str()).is_ok()),
+            ("ProtocolSignerVerificationKeyForConcatenation (JSON hex tree)", { let k = ProtocolSignerVerificationKeyForConcatenation::try_from(fake_keys::signer_verification_key()[0]).unwrap(); serde_json::from_slice(&hex::decode(k.to_json_hex().unwrap()).unwrap()).unwrap() }, |v| ProtocolSignerVerificationKeyForConcatenation::try_from(hex::encode(serde_json::to_vec(&v).unwrap()).as_str()).is_ok()),
+            ("ProtocolAggregateVerificationKeyForConcatenation (JSON hex tree)", serde_json::to_value(&avk).unwrap(), |v| ProtocolAggregateVerificationKeyForConcatenation::try_from(hex::encode(serde_json::to_vec(&v).unwrap()).as_str()).is_ok()),
+        ];
+        let mut n_json = 0u64;
+        for (name, honest, dec) in &jdecs {
+            let hh = honest.clone(); let d = *dec;
+            if guarded(&mut w, &mut sink, name, 100, &|| honest.to_string(), move || d(hh)) != Some(true) {
+                let i = sink.next_index(); sink.sfail(i, "roundtrip", &format!("{}: the honest document is not accepted", name), name);
+            }
+            for m in j_mutations(honest) {
+                n_json += 1;
+                let text = m.to_string();
+                let hx = || text.clone();
+                let d = *dec;
+                guarded(&mut w, &mut sink, name, text.len(), &hx, move || d(m));
+            }
+        }
+        sink.note("structure_aware_json_mutations", &n_json.to_string());
+        let mut n_cbor = 0u64;
+        for (name, honest, dec) in &decs {
+            if honest.first() != Some(&1) { continue; }
+            let tree: C = match ciborium::de::from_reader(&honest[1..]) { Ok(t) => t, Err(_) => continue };
+            for m in c_mutations(&tree, 2) {
+                n_cbor += 1;
+                let mut b = vec![1u8]; b.extend(c_enc(&m));
+                let hx = || hex(&b);
+                let bb = b.clone();
+                let ff = *dec;
+                guarded(&mut w, &mut sink, name, b.len(), &hx, move || ff(&bb));
+            }
+        }
+        sink.note("structure_aware_cbor_mutations", &n_cbor.to_string());
     }
     sink.note("decoder_calls_under_panic_hook_and_allocation_counter", &w.calls.to_string());
     sink.note("panics", &w.panics.to_string());
